@@ -91,7 +91,9 @@ def grid_kwargs(grid):
         kw["fill_value"] = {a: v / grid["fill_den"] for a, v in fv.items()} if isinstance(fv, dict) else fv / grid["fill_den"]
     ds_ = ctor.get("default_shifts")
     if ds_ and ds_["k"] == "m":
-        kw["default_shifts"] = {nm(a): {f: t for f, t in pairs} for a, pairs in ds_["v"]}
+        # axes given equal tables are given the very same mapping object (a user's `shifts = {...}` used for both)
+        shared = {}
+        kw["default_shifts"] = {nm(a): shared.setdefault(repr(sorted(map(tuple, pairs))), {f: t for f, t in pairs}) for a, pairs in ds_["v"]}
     if grid.get("faces"):
         from .faces import fc_dict
 
